@@ -191,6 +191,12 @@ pub fn trees_up_to(max: usize, a: &Alphabet) -> Vec<Item> {
 /// definite string split into an indefinite string with 1..=3 chunks
 /// (all compositions, plus an empty leading/trailing chunk form).
 pub fn deviations(item: &Item, widths: bool, framing: bool) -> Vec<Item> {
+    deviations_ex(item, widths, framing, framing)
+}
+
+/// Like `deviations` with separate switches for indefinite containers and chunked strings.
+pub fn deviations_ex(item: &Item, widths: bool, containers: bool, chunks: bool) -> Vec<Item> {
+    let framing = containers;
     let mut out = Vec::new();
     let wider = |n: u64, w: W| -> Vec<W> {
         if !widths {
@@ -236,7 +242,7 @@ pub fn deviations(item: &Item, widths: bool, framing: bool) -> Vec<Item> {
                     for x in wider(d.len() as u64, *w) {
                         out.push(mk(StrForm::Def(x)))
                     }
-                    if framing {
+                    if chunks {
                         for sp in splits(d.len()) {
                             if is_text {
                                 // only split at char boundaries so that the value stays valid text
@@ -278,7 +284,7 @@ pub fn deviations(item: &Item, widths: bool, framing: bool) -> Vec<Item> {
                 }
             }
             for i in 0..v.len() {
-                for c in deviations(&v[i], widths, framing) {
+                for c in deviations_ex(&v[i], widths, containers, chunks) {
                     let mut v2 = v.clone();
                     v2[i] = c;
                     out.push(Item::Array(v2, *l))
@@ -295,12 +301,12 @@ pub fn deviations(item: &Item, widths: bool, framing: bool) -> Vec<Item> {
                 }
             }
             for i in 0..v.len() {
-                for c in deviations(&v[i].0, widths, framing) {
+                for c in deviations_ex(&v[i].0, widths, containers, chunks) {
                     let mut v2 = v.clone();
                     v2[i].0 = c;
                     out.push(Item::Map(v2, *l))
                 }
-                for c in deviations(&v[i].1, widths, framing) {
+                for c in deviations_ex(&v[i].1, widths, containers, chunks) {
                     let mut v2 = v.clone();
                     v2[i].1 = c;
                     out.push(Item::Map(v2, *l))
@@ -311,7 +317,7 @@ pub fn deviations(item: &Item, widths: bool, framing: bool) -> Vec<Item> {
             for x in wider(*t, *w) {
                 out.push(Item::Tag(*t, x, i.clone()))
             }
-            for c in deviations(i, widths, framing) {
+            for c in deviations_ex(i, widths, containers, chunks) {
                 out.push(Item::Tag(*t, *w, Box::new(c)))
             }
         }
@@ -323,6 +329,10 @@ pub fn deviations(item: &Item, widths: bool, framing: bool) -> Vec<Item> {
 /// All variants with at most `k` deviations (including the item itself), deduplicated,
 /// in order of increasing deviation count.
 pub fn deviations_up_to(item: &Item, k: usize, widths: bool, framing: bool) -> Vec<Item> {
+    deviations_up_to_ex(item, k, widths, framing, framing)
+}
+
+pub fn deviations_up_to_ex(item: &Item, k: usize, widths: bool, containers: bool, chunks: bool) -> Vec<Item> {
     let mut seen: HashSet<Item> = HashSet::new();
     let mut out = vec![item.clone()];
     seen.insert(item.clone());
@@ -330,7 +340,7 @@ pub fn deviations_up_to(item: &Item, k: usize, widths: bool, framing: bool) -> V
     for _ in 0..k {
         let mut next = Vec::new();
         for f in &frontier {
-            for d in deviations(f, widths, framing) {
+            for d in deviations_ex(f, widths, containers, chunks) {
                 if seen.insert(d.clone()) {
                     out.push(d.clone());
                     next.push(d);
